@@ -1292,7 +1292,11 @@ func vwRun[K any](t *testing.T, kd vwKind[K], seed int64) {
 	for h := 0; h < 150; h++ {
 		tr := kd.mk()
 		var keys []K
-		for len(keys) < 6+rng.Intn(60) {
+		target := 6 + rng.Intn(60)
+		if kd.name == "unsigned" && h%%3 == 0 {
+			target = 100 + rng.Intn(60) // dense: nodes of the 48 and 256 classes
+		}
+		for len(keys) < target {
 			keys = append(keys, kd.gen(rng))
 		}
 		ref := map[string]int{}
@@ -1325,6 +1329,9 @@ func vwRun[K any](t *testing.T, kd vwKind[K], seed int64) {
 			}
 		}
 		nops := 20 + rng.Intn(120)
+		if target >= 100 {
+			nops = 200 + rng.Intn(200)
+		}
 		for op := 0; op < nops; op++ {
 			k := keys[rng.Intn(len(keys))]
 			switch rng.Intn(10) {
@@ -1530,7 +1537,8 @@ func TestVerifReplay(t *testing.T) {
 	if kind == "" || kind == "unsigned" {
 		vwRun(t, vwKind[uint32]{name: "unsigned", mk: func() Tree[uint32, int] { return NewUnsignedBinaryTree[uint32, int]() },
 			less: func(a, b uint32) bool { return a < b },
-			gen:  func(r *rand.Rand) uint32 { return uint32(r.Intn(4))<<24 | uint32(r.Intn(3))<<8 | uint32(r.Intn(40)*7) }}, seed)
+			// 64 distinct low bytes including 0xff: nodes of every size class, children under the last byte
+			gen: func(r *rand.Rand) uint32 { return uint32(r.Intn(2))<<24 | uint32(r.Intn(8)/7)<<8 | uint32(r.Intn(64)*4+3) }}, seed)
 	}
 	if kind == "" || kind == "signed" {
 		vwRun(t, vwKind[int32]{name: "signed", mk: func() Tree[int32, int] { return NewSignedBinaryTree[int32, int]() },
